@@ -22,6 +22,34 @@ CHECKS = {
                     "without any outbound connection, as the model says."),
         level_note="Trusts the banner/accept counters of harness targets; sampling beyond the enumerated sub-space.",
     ),
+    "C04": dict(
+        pkg="c04",
+        level="fault_enumeration",
+        technique="enumerated configuration matrix with a recording observer on the carrier + property-based testing (rapid) of scripted misbehaving peers at each handshake step; marker-on-the-wire oracle",
+        rule=("four generated experiments. (1) real client x real server with a recording observer on the carrier (TCP/UDP relay, "
+              "pipe tap): the matrix (carrier tcp/tcp+tls/http/https/stdio/stdio+tls/udp/dns) x server certificate x require-"
+              "security x insecure flag is enumerated; a 32-byte high-entropy marker inside generated padding is echoed through; "
+              "oracle: never 'reported secure and marker on the wire', never marker on the wire / data carried when security is "
+              "required, StartTLS offered => session is tls or absent, session exists iff the model says so; unprotected sessions "
+              "must show the marker (detector sanity). (1b) client and server handshake objects over a recorded loop-back "
+              "socket (rapid): both ends' reports agree, tls => marker absent. (2) real client x scripted server (rapid): "
+              "announce status, capability spelling/omission/duplication, upgrade status, then TLS / plaintext / silence / "
+              "close; oracle: with require-security Connect succeeds only after a genuine TLS handshake and the server never "
+              "reads the marker in clear; StartTLS offered => TLS or no session. (3) TLS endpoints (tcp+tls, https, stdio+tls) x "
+              "scripted plaintext clients (perfect plaintext handshake, websocket upgrade, truncations, random bytes): no "
+              "success status in clear, no target connection. non-trivial = the ends could disagree (StartTLS offered, security "
+              "required, or a misbehaving step)"),
+        assumptions=["the server's own secure flag is only observable in experiment 1b (no hook in the full server path)",
+                     "DNS payloads are encoded, so the literal-marker detector says nothing there; flags and model still apply"],
+        quick=dict(run=".", checks=150, timeout=900),
+        thorough=dict(run=".", checks=1500, timeout=3000, shards=6),
+        design_ref="DESIGN.md 2/C04",
+        level_text=("Configuration matrix enumerated with an on-the-wire observer, plus generated fault scripts at every handshake "
+                    "step for both roles. A green run means the marker never crossed the carrier in clear on a session reported "
+                    "or required secure, StartTLS offers never ended in a plaintext session, and TLS endpoints never completed "
+                    "a plaintext session."),
+        level_note="Trusts crypto/tls; the detector is validated on every run by requiring the marker to be visible on unprotected sessions.",
+    ),
     "C05": dict(
         pkg="c05",
         level="exploration",
